@@ -1,8 +1,9 @@
 #!/bin/bash
-# tools/seedverify.sh <ID>: re-verify a seeded change in its scratch worktree /tmp/seed-<ID>
-# (demo fails with the patch, passes without; lib tests pass with it), copy it to /verif/seeded/<ID>/.
+# tools/seedverify.sh <ID> [<worktree> [<name under seeded/>]]: re-verify a seeded change in its scratch
+# worktree (default /tmp/seed-<ID>): demo fails with the patch, passes without; lib tests pass with it;
+# copy it to /verif/seeded/<name>/.
 set -u
-ID=$1; W=/tmp/seed-$ID; S=/verif/seeded/$ID
+ID=$1; W=${2:-/tmp/seed-$ID}; N=${3:-$ID}; S=/verif/seeded/$N; ID=$N
 mkdir -p $S; cp -r $W/seed/* $S/ 2>/dev/null
 cd $W || exit 2
 DEMO=$(grep -v "^#" seed/demo_cmd.txt | grep cargo | head -1 | sed "s#cd $W *&& *##")
